@@ -45,7 +45,11 @@ RULE = ("2D configurations (orthogonal / triclinic cell, any origin, all periodi
         "neighbouring images; gas / lattice / cluster; N 3..20; 1..6 frames, small-step or independent) x synthetic "
         "neighbour files (random asymmetric / k-nearest / ragged k-nearest; rows in any id order; Nmax default / "
         "equal to max cn / larger / truncating) x weight files (none / positive / signed with zeros / all-equal; "
-        "four number formats) x l 1..12. non-trivial (order, rotation, libfiles) = coordination numbers differ between "
+        "four number formats) x l 1..12. Extension 1: sheared trajectories (triclinic, >= 2 frames, xy tilt different in "
+        "every frame, same boxlength; each frame's snapshot and oracle use that frame's cell), 'ragged-forced' lists "
+        "(within one frame one particle with the frame-maximum cn and one with a single neighbour, particle 0 being "
+        "one of them in half of the cases), repeated calls on one object (lthorder x3 interleaved with a second "
+        "object; time_average mode A/window w, then mode not-A/window w2, then A/w again), T = 2 with window 1. non-trivial (order, rotation, libfiles) = coordination numbers differ between "
         "particles, or weights non-uniform, or >= 2 frames; and at least one asserted particle has |psi| > 1e-3")
 ASSUMPTIONS = [
     "every particle has >= 1 neighbour and sum|w| > 0; neighbour ids 1-based, no self neighbour; weight rows have the "
@@ -62,6 +66,7 @@ ASSUMPTIONS = [
 W_FORMATS = ["%.6f", "%.17g", "%g", "%.3e"]
 W_NAMES = ["edgelengthlist", "weightlist", "facearealist"]
 WCLASSES = ("none", "none", "none", "positive", "positive", "signed", "signed", "equal")
+LIST_KINDS = ("random", "nearest", "nearest-ragged", "ragged-forced", "ragged-forced")
 NCLASSES = ("default", "default", "equal", "equal", "larger", "larger", "truncating")
 
 
@@ -85,6 +90,7 @@ def pick(values):
 @st.composite
 def traj_st(draw, frames=(1, 5), cell_kind="any", allow_open=True, force_open=False, nmin=3, nmax=20,
             spacing="any", outside=True, origin="any", kinds=("gas", "lattice", "cluster")):
+    shear = draw(pick([True, True, False]))          # class choice first (see case_st)
     base = draw(config_st(d=2, cell_kind=cell_kind, nmin=nmin, nmax=nmax, K=1, frames=(1, 1), allow_open=allow_open,
                           outside=outside, lmin=2.0, lmax=30.0, origin=origin, kinds=kinds))
     if force_open:
@@ -96,13 +102,33 @@ def traj_st(draw, frames=(1, 5), cell_kind="any", allow_open=True, force_open=Fa
     motion = "single"
     if T > 1:
         motion = draw(pick(["small-steps", "small-steps", "independent"]))
-    for _ in range(1, T):
+    # sheared trajectory: triclinic, >= 2 frames, the xy tilt differs from frame to frame while lx, ly stay equal
+    # (boo_2d only pins boxlength); frame k has its own cell dict and positions lo + f_k @ H_k
+    sheared = bool(shear and T > 1 and base["cell"]["kind"] == "tri")
+    Hs = [H]
+    if sheared:
+        used = {round(float(H[1, 0] / H[0, 0]), 3)}
+        for _ in range(1, T):
+            tl = draw(st.integers(-50, 50)) / 100.0
+            while round(tl, 3) in used:
+                tl = tl + 0.07 if tl < 0.4 else tl - 0.93
+            used.add(round(tl, 3))
+            Hk = H.copy()
+            Hk[1, 0] = tl * H[0, 0]
+            Hs.append(Hk)
+    else:
+        Hs = [H] * T
+    fprev = np.linalg.solve(H.T, (pos[0] - lo).T).T
+    for k in range(1, T):
         if motion == "small-steps":
             amp = draw(st.sampled_from([0.01, 0.05, 0.2]))
             df = draw(hnp.arrays(np.float64, (N, 2), elements=fl(-1.0, 1.0))) * amp
-            pos.append(pos[-1] + df @ H)
+            fprev = fprev + df
         else:
-            pos.append(lo + draw(frac_st(N, 2)) @ H)
+            fprev = draw(frac_st(N, 2))
+        pos.append(lo + fprev @ Hs[k])
+    if sheared:
+        base["cells"] = [dict(base["cell"], H=Hk) for Hk in Hs]
     t0 = draw(st.sampled_from([0, 0, 1000, 123456]))
     step = draw(st.integers(1, 5000))
     if spacing == "any":
@@ -115,8 +141,17 @@ def traj_st(draw, frames=(1, 5), cell_kind="any", allow_open=True, force_open=Fa
         if len(set(inc)) == 1:
             inc[-1] *= 2
         ts = list(np.concatenate([[t0], t0 + np.cumsum(inc)]).astype(int))
-    base.update(pos=pos, timesteps=[int(t) for t in ts], motion=motion, spacing=spacing)
+    base.update(pos=pos, timesteps=[int(t) for t in ts], motion=motion, spacing=spacing, sheared=sheared)
     return base
+
+
+def cell_of(case, t):
+    """Cell dict of frame t (sheared trajectories carry one per frame)."""
+    return case["cells"][t] if case.get("cells") else case["cell"]
+
+
+def Hs_of(case):
+    return [cell_of(case, t)["H"] for t in range(len(case["pos"]))]
 
 
 def _nearest_table(pos, H, ppp):
@@ -136,7 +171,7 @@ def lists_st(draw, traj, cmax=None, kind=None, nclass=None):
         cmax = draw(pick([3, 6, 8, 8, 12]))
     cmax = min(cmax, N - 1)
     if kind is None:
-        kind = draw(pick(["random", "nearest", "nearest-ragged"]))
+        kind = draw(pick(LIST_KINDS))
     seed = draw(_u32)
     rng = np.random.default_rng(seed)
     frames = []
@@ -149,11 +184,20 @@ def lists_st(draw, traj, cmax=None, kind=None, nclass=None):
                 lists.append(rng.permutation(others)[:cn].astype(int))
         else:
             k = draw(st.integers(1, cmax))
-            D = _nearest_table(traj["pos"][t], traj["cell"]["H"], traj["ppp"])
+            D = _nearest_table(traj["pos"][t], cell_of(traj, t)["H"], traj["ppp"])
             order = np.argsort(D, axis=1, kind="stable")[:, :k]
             lists = [order[i].astype(int) for i in range(N)]
-            if kind == "nearest-ragged":
+            if kind in ("nearest-ragged", "ragged-forced"):
                 lists = [L[: int(rng.integers(1, k + 1))] for L in lists]
+            if kind == "ragged-forced" and k >= 2:
+                # cn varies inside this frame by construction: one particle keeps the frame maximum k, one has a
+                # single neighbour; particle 0 is one of the two (a single neighbour gives |psi_0| = 1, so a value
+                # leaking through zero padding / index 0 is as visible as it can be)
+                a, b = (int(v) for v in rng.permutation(N)[:2])
+                if rng.integers(0, 2):
+                    a, b = (0, b if b != 0 else a) if rng.integers(0, 2) else (a if a != 0 else b, 0)
+                lists[a] = order[a].astype(int)
+                lists[b] = order[b][:1].astype(int)
         frames.append(lists)
     maxcn = max(len(L) for fr in frames for L in fr)
     if nclass is None:
@@ -208,7 +252,7 @@ def case_st(draw, frames=(1, 5), l_values=tuple(range(1, 13)), wclasses=WCLASSES
     l = draw(pick(l_values))
     T = draw(pick(range(frames[0], frames[1] + 1)))
     wclass = draw(pick(wclasses))
-    kind = draw(pick(["random", "nearest", "nearest-ragged"]))
+    kind = draw(pick(LIST_KINDS))
     nclass = draw(pick(NCLASSES))
     cmax = draw(pick([3, 6, 8, 8, 12]))
     traj = draw(traj_st(frames=(T, T), **kw))
@@ -245,7 +289,7 @@ def oracle_weights(case):
 
 def make_snapshots(case, pos=None):
     pos = case["pos"] if pos is None else pos
-    snaps = [snapshot_from(case["cell"], p, case["types"], ts) for p, ts in zip(pos, case["timesteps"])]
+    snaps = [snapshot_from(cell_of(case, t), p, case["types"], ts) for t, (p, ts) in enumerate(zip(pos, case["timesteps"]))]
     return Snapshots(nsnapshots=len(snaps), snapshots=snaps)
 
 
@@ -292,7 +336,7 @@ def compare_psi(name, got, ref, tol, amb, factor=1.0):
 
 def reference(case, pos=None, ppp=None, weights="case"):
     w = oracle_weights(case) if weights == "case" else weights
-    return R.psi_traj(case["pos"] if pos is None else pos, case["cell"]["H"],
+    return R.psi_traj(case["pos"] if pos is None else pos, Hs_of(case),
                       np.asarray(case["ppp"] if ppp is None else ppp), case["lists"], case["l"], w, eff_nmax(case))
 
 
@@ -311,6 +355,15 @@ def common_tags(case, amb=None):
             tags.append("w-has-negative")
     if len(set(cns)) > 1:
         tags.append("cn-varies")
+    per_frame = [[min(len(L), eff_nmax(case)) for L in fr] for fr in case["lists"]]
+    if any(len(set(f)) > 1 for f in per_frame):
+        tags.append("cn-varies-in-frame")
+    if any(min(f) == 1 and max(f) >= 3 for f in per_frame):
+        tags.append("frame-has-cn1-and-cn>=3")
+    if min(cns) == 1:
+        tags.append("has-single-neighbour-particle")
+    if case.get("sheared"):
+        tags.append("sheared-per-frame-tilt")
     if amb is not None and amb.any():
         tags.append("has-ambiguous")
     return tags
@@ -346,9 +399,6 @@ def check_order(case):
     compare_psi("ParticlePhi vs definition", phi, ref, tol, amb)
     require(bool(np.all(np.abs(phi) <= 1.0 + 1e-12)),
             lambda: f"|psi| exceeds one: max |psi| = {np.abs(phi).max()!r} (nan counts as a failure)")
-    # lthorder() called again (as the repository's test does) returns the same numbers
-    again = arr("lthorder()", boo.lthorder(), shape=(T, N)).astype(np.complex128)
-    close("lthorder() second call", again, phi, rtol=0, atol=1e-14)
     if case["save_phi"]:
         require(os.path.exists(extra["output_phi"]), "output_phi given but no file written")
         close("output_phi file", np.load(extra["output_phi"]), phi, rtol=0, atol=0)
@@ -358,12 +408,25 @@ def check_order(case):
         sign = np.sign(case["weights"][0][0][0])
         compare_psi("all-equal weights vs unweighted", phi, sign * plain, tol, amb, factor=2.0)
     # periodic images of single particles / a global translation change nothing
-    H, ppp = case["cell"]["H"], np.asarray(case["ppp"])
-    moved = [p + (case["shift"] * ppp) @ H + case["translate"] for p in case["pos"]]
+    ppp = np.asarray(case["ppp"])
+    moved = [p + (case["shift"] * ppp) @ Hk + case["translate"] for p, Hk in zip(case["pos"], Hs_of(case))]
     refm, tolm, ambm = reference(case, pos=moved)
-    phim = phi_of("ParticlePhi (shifted images)", run_boo(case, nb, wf, pos=moved), T, N)
+    boo_m = run_boo(case, nb, wf, pos=moved)
+    phim = phi_of("ParticlePhi (shifted images)", boo_m, T, N)
     compare_psi("invariance under lattice-vector shifts + translation", phim, phi, tol + tolm, amb | ambm)
-    return {"nontrivial": is_nontrivial(case, ref, amb), "tags": common_tags(case, amb),
+    # state between calls: lthorder() called again on the FIRST object (as the repository's test does), after a second
+    # object with other positions has been evaluated, then with another output file, and on the second object:
+    # every call must return the numbers of its own object
+    again = arr("lthorder() second call", boo.lthorder(), shape=(T, N)).astype(np.complex128)
+    close("lthorder() second call on the first object", again, phi, rtol=0, atol=1e-14)
+    phi2 = os.path.join(os.getcwd(), "phi2.npy")
+    third = arr("lthorder(output_phi)", boo.lthorder(phi2), shape=(T, N)).astype(np.complex128)
+    close("lthorder(output_phi) third call", third, phi, rtol=0, atol=1e-14)
+    require(os.path.exists(phi2), "lthorder(output_phi): no file written")
+    close("lthorder(output_phi) file", np.load(phi2), phi, rtol=0, atol=1e-14)
+    close("lthorder() on the second object", arr("lthorder()", boo_m.lthorder(), shape=(T, N)).astype(np.complex128), phim, rtol=0, atol=1e-14)
+    tags = common_tags(case, amb) + (["psi0-clearly-nonzero"] if np.all(np.abs(ref[:, 0]) > 0.1) else [])
+    return {"nontrivial": is_nontrivial(case, ref, amb), "tags": tags,
             "extra": {"ambiguous_particles": int(amb.sum()), "asserted_particles": int((~amb).sum())}}
 
 
@@ -522,6 +585,7 @@ def check_lattice(case):
 def tavg_case(draw):
     T = draw(pick(range(2, 8)))
     w = draw(pick(range(1, T)))
+    w2 = draw(pick(range(1, T)))
     dyadic = draw(pick([True, False]))
     mode = draw(pick([True, False]))
     case = draw(case_st(frames=(T, T), spacing="even", nmax=12))
@@ -532,7 +596,7 @@ def tavg_case(draw):
         dt = draw(st.sampled_from([0.002, 0.005, 0.001, 0.01, 1.0]))
         frac = draw(st.integers(5, 95)) / 100.0
     interval = (case["timesteps"][1] - case["timesteps"][0]) * dt
-    case.update(dt=dt, w=w, frac=frac, period=(w + frac) * interval, dyadic=dyadic,
+    case.update(dt=dt, w=w, w2=w2, frac=frac, period=(w + frac) * interval, dyadic=dyadic,
                 average_complex=mode, save=draw(st.booleans()))
     return case
 
@@ -542,38 +606,51 @@ def check_tavg(case):
     nb, wf = write_files(case)
     boo = run_boo(case, nb, wf)
     phi = phi_of("ParticlePhi", boo, T, N)
-    w = case["w"]
     interval = (case["timesteps"][1] - case["timesteps"][0]) * case["dt"]
-    q = case["period"] / interval
-    assert int(np.floor(q + 1e-9)) == w and int(np.floor(q - 1e-9)) == w or case["frac"] == 0.0 and q == w, "harness: window ambiguous"
-    kw = dict(time_period=case["period"], dt=case["dt"], average_complex=case["average_complex"])
-    out = os.path.join(os.getcwd(), "tavg.npy")
-    if case["save"]:
-        kw["outputfile"] = out
-    res = boo.time_average(**kw)
-    require(isinstance(res, tuple) and len(res) == 2, lambda: f"time_average must return (values, middle ids), got {type(res).__name__}")
-    vals = arr("time_average values", res[0], shape=(T - w, N)).astype(np.complex128)
-    ids = arr("time_average middle ids", res[1], shape=(T - w,))
-    if case["average_complex"]:
-        want = R.window_average(phi, w)
-    else:
-        want = R.window_average(np.abs(phi), w) * np.exp(1j * R.window_average(np.angle(phi), w))
-    close("time_average values", vals, want, rtol=1e-12, atol=1e-13)
-    # reported index: a central frame of the window n .. n+w-1, advancing by one per row
-    n = np.arange(T - w)
-    require(bool(np.all(np.abs(ids - (n + (w - 1) / 2.0)) <= 0.5)) and bool(np.all(ids == np.round(ids))),
-            lambda: f"middle snapshot ids {ids.tolist()} are not central frames of the windows "
-                    f"[n, n+{w - 1}] for n = 0..{T - w - 1}")
-    require(bool(np.all(np.diff(ids) == 1)), lambda: f"middle snapshot ids {ids.tolist()} do not advance by one per window")
-    if case["save"]:
-        require(os.path.exists(out), "time_average: outputfile given but not written")
-        close("time_average saved array", np.load(out), vals, rtol=0, atol=0)
-    # ParticlePhi itself must not be modified by the call
-    close("ParticlePhi after time_average", boo.ParticlePhi, phi, rtol=0, atol=0)
+
+    def one_call(tag, w, mode, save):
+        period = (w + case["frac"]) * interval
+        q = period / interval
+        assert int(np.floor(q + 1e-9)) == w and int(np.floor(q - 1e-9)) == w or case["frac"] == 0.0 and q == w, "harness: window ambiguous"
+        kw = dict(time_period=period, dt=case["dt"], average_complex=mode)
+        out = os.path.join(os.getcwd(), f"tavg{tag}.npy")
+        if save:
+            kw["outputfile"] = out
+        res = boo.time_average(**kw)
+        name = f"time_average[{tag} call: window {w}, average_complex={mode}]"
+        require(isinstance(res, tuple) and len(res) == 2, lambda: f"{name} must return (values, middle ids), got {type(res).__name__}")
+        vals = arr(f"{name} values", res[0], shape=(T - w, N)).astype(np.complex128)
+        ids = arr(f"{name} middle ids", res[1], shape=(T - w,))
+        if mode:
+            want = R.window_average(phi, w)
+        else:
+            want = R.window_average(np.abs(phi), w) * np.exp(1j * R.window_average(np.angle(phi), w))
+        close(f"{name} values", vals, want, rtol=1e-12, atol=1e-13)
+        # reported index: a central frame of the window n .. n+w-1, advancing by one per row
+        n = np.arange(T - w)
+        require(bool(np.all(np.abs(ids - (n + (w - 1) / 2.0)) <= 0.5)) and bool(np.all(ids == np.round(ids))),
+                lambda: f"{name}: middle snapshot ids {ids.tolist()} are not central frames of the windows "
+                        f"[n, n+{w - 1}] for n = 0..{T - w - 1}")
+        require(bool(np.all(np.diff(ids) == 1)), lambda: f"{name}: middle snapshot ids {ids.tolist()} do not advance by one per window")
+        if save:
+            require(os.path.exists(out), f"{name}: outputfile given but not written")
+            close(f"{name} saved array", np.load(out), vals, rtol=0, atol=0)
+        # ParticlePhi itself must not be modified by the call
+        close(f"ParticlePhi after {name}", boo.ParticlePhi, phi, rtol=0, atol=0)
+
+    w, w2, mode = case["w"], case["w2"], case["average_complex"]
+    one_call("first", w, mode, case["save"])
+    # same object, other arguments (state carried between calls must not leak): the other averaging mode with another
+    # window, then the first arguments once more
+    one_call("second", w2, not mode, False)
+    one_call("third", w, mode, False)
     tags = common_tags(case) + [f"w{w}", "exact-multiple" if case["frac"] == 0 else "fractional-period",
-                                "complex-mean" if case["average_complex"] else "modulus-phase-mean",
-                                "dt-dyadic" if case["dyadic"] else "dt-decimal", "w-even" if w % 2 == 0 else "w-odd"]
-    return {"nontrivial": bool(w >= 2 and T - w >= 2 and np.abs(phi).max() > 1e-3), "tags": tags}
+                                "complex-mean-first" if mode else "modulus-phase-mean-first",
+                                "dt-dyadic" if case["dyadic"] else "dt-decimal", "w-even" if w % 2 == 0 else "w-odd",
+                                "second-window-differs" if w2 != w else "second-window-same"]
+    if T == 2:
+        tags.append("T2-window1")
+    return {"nontrivial": bool(max(w, w2) >= 2 and T - min(w, w2) >= 2 and np.abs(phi).max() > 1e-3), "tags": tags}
 
 
 @st.composite
@@ -597,7 +674,7 @@ def check_scorr(case):
     df = boo.spatial_corr(rdelta=rdelta, outputfile=out) if case["save"] else boo.spatial_corr(rdelta=rdelta)
     columns("spatial_corr", df, ["r", "gr", "gA"])
     r, gr, gA = (arr(f"spatial_corr[{c}]", col("spatial_corr", df, c), shape=(nbins,)) for c in ("r", "gr", "gA"))
-    acc = [R.conditional_gr_complex(p, case["cell"]["H"], L, case["ppp"], phi[t], rdelta, nbins) for t, p in enumerate(case["pos"])]
+    acc = [R.conditional_gr_complex(p, cell_of(case, t)["H"], L, case["ppp"], phi[t], rdelta, nbins) for t, p in enumerate(case["pos"])]
     tie_tri = case["cell"]["kind"] == "tri" and any(a[6] for a in acc)
     r_ref = acc[0][0]
     lo = sum(a[1] for a in acc) / T
@@ -625,6 +702,8 @@ def check_scorr(case):
             close(f"spatial_corr csv[{c}]", f[c].values, v, rtol=0, atol=5.1e-9)
     filled = int(np.sum(hi > 0))
     tags = common_tags(case) + ["edge-ambiguous-pairs" if namb else "no-edge-pairs", "bins<=8" if nbins <= 8 else "bins>8"]
+    if np.all(np.abs(phi[:, 0]) > 0.1):
+        tags.append("psi0-clearly-nonzero")
     if tie_tri:
         tags.append("skipped-tri-tie")
     return {"nontrivial": bool(filled >= 2 and np.abs(gA_ref).max() > 1e-6 and not tie_tri), "tags": tags,
@@ -707,7 +786,7 @@ def check_libfiles(case):
         Nnearests(snaps, N=int(case["k"]), ppp=ppp, fnfile=nbf)
     elif case["writer"] == "cutoff":
         # a cut-off that gives every particle at least one neighbour: above the largest nearest-neighbour distance
-        dmax = max(_nearest_table(p, H, ppp).min(axis=1).max() for p in case["pos"])
+        dmax = max(_nearest_table(p, Hk, ppp).min(axis=1).max() for p, Hk in zip(case["pos"], Hs_of(case)))
         nbf = os.path.join(os.getcwd(), "rc.dat")
         cutoffneighbors(snaps, r_cut=float(dmax * case["rfac"] * (1 + 1e-6)), ppp=ppp, fnfile=nbf)
     else:
@@ -729,12 +808,12 @@ def check_libfiles(case):
         kw["Nmax"] = case["Nmax"]
     boo = boo_2d(make_snapshots(case), **kw)
     phi = phi_of("ParticlePhi", boo, T, N)
-    ref, tol, amb = R.psi_traj(case["pos"], H, ppp, lists, case["l"], weights, nmax)
+    ref, tol, amb = R.psi_traj(case["pos"], Hs_of(case), ppp, lists, case["l"], weights, nmax)
     compare_psi(f"ParticlePhi vs definition (files from {case['writer']})", phi, ref, tol, amb)
     require(bool(np.all(np.abs(phi) <= 1.0 + 1e-12)), lambda: f"|psi| exceeds one: {np.abs(phi).max()!r}")
     tags = ["writer-" + case["writer"], case["cell"]["kind"], "ppp" + "".join(str(int(p)) for p in ppp), f"T{T}",
             "weights-edgelength" if wf else "unweighted", "cn-varies" if len(set(cn.tolist())) > 1 else "cn-uniform",
-            "truncated" if cn.max() > nmax else "not-truncated"]
+            "truncated" if cn.max() > nmax else "not-truncated"] + (["sheared-per-frame-tilt"] if case.get("sheared") else [])
     live = bool(np.any((np.abs(ref) > 1e-3) & ~amb))
     return {"nontrivial": bool(live and (len(set(cn.tolist())) > 1 or wf or T >= 2)), "tags": tags,
             "extra": {"ambiguous_particles": int(amb.sum())}}
